@@ -44,6 +44,13 @@ def cases(seed, tier):
         out.append({"group": "extra", "kind": "reassign", "seed": sub_seed(seed, "c06xrs", i), "method": methods[i % 3], "withM": i % 2 == 0,
                     "n": rng.choice([4, 6, 7]), "neig": rng.choice([2, 3]), "mode": rng.choice(["lowest", "uppest"]),
                     "maskA": [1, 1, 1], "maskM": [1, 1], "bck": rng.choice(["default", "tight"]), "order": 1, "reassign_m": rng.random() < 0.5})
+    # several backward passes through ONE graph (rows of a Jacobian, gradcheck): each pass must give what the first one gives; with explicit
+    # degeneracy tolerances in bck_options and a pair of eigenvalues closer than the default threshold but further apart than the caller's
+    for i in range(30 if tier == "quick" else 300):
+        rng = random.Random(sub_seed(seed, "c06xt", i))
+        out.append({"group": "extra", "kind": "twice", "seed": sub_seed(seed, "c06xts", i), "method": ["custom_exacteig", "davidson", "callable"][i % 3],
+                    "n": rng.choice([4, 6]), "gap": rng.choice([1e-5, 3e-6, 1e-4]), "level": rng.choice([1.0, 100.0]), "npass": rng.choice([2, 3]),
+                    "svd": i % 5 == 4})
     # one of the two operators has NO tensor parameter at all (its _getparamnames returns []): the other one's tensors still get their gradients
     for i in range(30 if tier == "quick" else 300):
         rng = random.Random(sub_seed(seed, "c06xn", i))
@@ -133,7 +140,72 @@ def _gen(n, tg, withM, maskA, maskM):
     return (d, e, u), m
 
 
+def run_twice(desc):
+    import xitorch
+    from xitorch.linalg import symeig, svd
+    obs = Obs(desc)
+    tg = torch.Generator().manual_seed(desc["seed"])
+    n, gap, level, method = desc["n"], desc["gap"], desc["level"], desc["method"]
+    q, _ = torch.linalg.qr(torch.randn(n, n, generator=tg, dtype=DT))
+    vals = torch.tensor([level, level + gap] + [level + 3.0 + 2.0 * k for k in range(n - 2)], dtype=DT)
+    PA = ((q * vals) @ q.T).clone().requires_grad_()
+    if method == "callable":
+        import xitorch._impls.linalg.symeig as implmod
+
+        def marg(A, neig, mode, M=None, **unused):
+            return implmod.exacteig(A, neig, mode, M)
+        fopts = {}
+    elif method == "davidson":
+        marg, fopts = "davidson", {"min_eps": 1e-13, "max_niter": 3000}
+    else:
+        marg, fopts = method, {}
+    bck = {"degen_atol": 1e-9, "degen_rtol": 1e-9, "method": "exactsolve"}
+    mech = "twice:%s:%s" % ("svd" if desc["svd"] else "symeig", method)
+    W = torch.randn(2, n, n, generator=tg, dtype=DT)
+    try:
+        with WarnLog():
+            Aop = xitorch.LinearOperator.m(0.5 * (PA + PA.T), is_hermitian=True)
+            if desc["svd"]:
+                U, S, Vh = svd(Aop, 2, mode="lowest", method=marg, bck_options=dict(bck), **fopts)
+                outs = [(W[i] * torch.outer(U[:, i], Vh[i, :]) * S[i]).sum() for i in range(2)]
+            else:
+                ev, X = symeig(Aop, neig=2, mode="lowest", method=marg, bck_options=dict(bck), **fopts)
+                outs = [(W[i] * torch.outer(X[:, i], X[:, i])).sum() for i in range(2)]
+            L = outs[0] + 0.7 * outs[1]
+            gs = [torch.autograd.grad(L, PA, retain_graph=True)[0] for _ in range(desc["npass"])]
+            rows = [torch.autograd.grad(o, PA, retain_graph=True)[0] for o in outs]          # a Jacobian assembled row by row
+    except Exception as e:
+        obs.exc_violation("extra:call:" + mech, e)
+        obs.nontrivial = True
+        return obs.result()
+    sc = 1.0 + float(gs[0].abs().max())
+    for k in range(1, len(gs)):
+        err = float((gs[k] - gs[0]).abs().max())
+        obs.check(err <= 1e-9 * sc, "extra:repeat_backward:" + mech, "backward pass number %d through the same graph differs from the first one by %.3e (scale %.2e; "
+                  "eigenvalue gap %.0e, bck_options degen tolerances 1e-9)" % (k + 1, err, sc, gap))
+    err = float((rows[0] + 0.7 * rows[1] - gs[0]).abs().max())
+    obs.check(err <= 1e-7 * sc, "extra:rows_vs_total:" + mech, "the gradient assembled from one backward pass per output differs from the single pass by %.3e (scale %.2e)" % (err, sc))
+    # against the dense reference (the pair is NOT degenerate at the caller's tolerances)
+    PA2 = PA.detach().clone().requires_grad_()
+    er, Xr = torch.linalg.eigh(0.5 * (PA2 + PA2.T))
+    if desc["svd"]:
+        # singular values of a positive definite symmetric matrix are its eigenvalues, u = v = x
+        Lr = sum(c * (W[i] * torch.outer(Xr[:, i], Xr[:, i]) * er[i]).sum() for i, c in ((0, 1.0), (1, 0.7)))
+    else:
+        Lr = sum(c * (W[i] * torch.outer(Xr[:, i], Xr[:, i])).sum() for i, c in ((0, 1.0), (1, 0.7)))
+    gr, = torch.autograd.grad(Lr, PA2)
+    tol = 1e-6 / gap * 1e-4          # the 1/gap amplification of the forward accuracy (1e-10 relative)
+    err = float((gs[0] - gr).abs().max())
+    obs.check(err <= max(tol, 1e-5) * (1.0 + float(gr.abs().max())), "extra:grad1:" + mech, "gradient at a near-degenerate (gap %.0e) but separated pair differs from the dense "
+              "reference by %.3e (scale %.2e)" % (gap, err, 1.0 + float(gr.abs().max())))
+    obs.count("extra_repeated_backward_compared")
+    obs.nontrivial = True
+    return obs.result()
+
+
 def run_case(desc):
+    if desc.get("kind") == "twice":
+        return run_twice(desc)
     from xitorch.linalg import symeig
     obs = Obs(desc)
     tg = torch.Generator().manual_seed(desc["seed"])
